@@ -80,6 +80,48 @@ def sym_dirty(ctx, cfg):
     return PathOutcome(props, inputs, None)
 
 
+def sym_dirty2(ctx, cfg):
+    """Two collections with their own prefixes; leftovers of an earlier run for either prefix."""
+    import z3
+    from symx import vfs, sympd, symnp, core
+    from symx.core import SNum, PathOutcome, Unsupported
+    C, W, U, T, D, Q = conflib.setup()
+    vfs.reset()
+    n = cfg["n"]
+    pss, syms = [], []
+    for cid in range(2):
+        ps, s = conflib.make_collection(ctx, n, cid, "bool")
+        pss.append(ps)
+        syms.append(s)
+    C.CONFIDENCE_CHUNK_SIZE = U.MERGE_SORT_CHUNK_SIZE = n + 1
+    prefixes = ["runA", "runB"]
+    for pre in prefixes:
+        present = bool(ctx.fresh_bool("stale_results_of_%s_present" % pre))  # one bit per prefix: all four result files of that prefix
+        for lvl in ("psms", "peptides"):
+            for kind in ("targets", "decoys"):
+                if present:
+                    r = _stale_row(ctx, syms[0], "%s%s%s" % (pre, kind, lvl))
+                    vfs.put("/vfs/out/%s.%s.%s" % (pre, kind, lvl), sympd.DataFrame({"PSMId": [r["SpecId"]], "peptide": [r["Peptide"]], "score": [r["score"]], "q-value": [0.5],
+                                                                                   "posterior_error_prob": [0.5], "proteinIds": ["stale_prot"]}))
+    before = set(vfs.listing())
+    inputs = dict(collections=conflib.collection_inputs(syms), prefixes=prefixes, stale={p: vfs.get(p) for p in sorted(before) if p.startswith("/vfs/out/")})
+    try:
+        c03.run_confidence(ctx, cfg, C, syms, pss, [symnp.SArray([SNum(z) for z in s["score"]], symnp.float64) for s in syms], None, True, True, True, prefixes)
+    except Unsupported:
+        raise
+    except Exception as ex:
+        import traceback
+        tb = traceback.extract_tb(ex.__traceback__)[-1]
+        return PathOutcome([], inputs, None, "exc", note="%s:%s @%s:%d" % (type(ex).__name__, str(ex)[:60], os.path.basename(tb.filename), tb.lineno))
+    props = []
+    for s, pre in zip(syms, prefixes):
+        props += [("%s_%s" % (pre, n_), p_) for n_, p_ in c03.output_props(s, pre, True, True, True)]
+    made = set(vfs.listing()) - before
+    left = [p for p in made if "scores_metadata" in p or os.path.basename(p) in ("psms.pin", "peptides.pin")]
+    props.append(("no_intermediate_file_of_this_run_remains: %s" % sorted(left), z3.BoolVal(not left)))
+    return PathOutcome(props, inputs, None)
+
+
 # ---- leftovers PRODUCED by an interrupted earlier run --------------------------------
 def sym_produced(ctx, cfg):
     import z3
@@ -253,6 +295,7 @@ def harnesses(tier):
         add("dirty[n=2,stale level+result files]", dict(n=2, stale_levels=True, stale_results=True))
         add("dirty[n=2,prefix,stale chunk file]", dict(n=2, stale_chunks=True, prefix="a"))
         add("dirty[n=3,chunk 1..2,stale chunk file with index 3/9/10/11/20/100]", dict(n=3, stale_chunks=True, stale_indices=[3, 9, 10, 11, 20, 100], sym_chunk=True, max_chunk=2))
+        add("dirty[2 collections with prefixes,n=2,stale result files of either prefix]", dict(n=2), sym_dirty2, "dirty2", 0.02)
         add("produced[first n=2 chunk 1, crash<=10, then n=2]", dict(n_first=2, n=2, first_chunk=1, max_crash=16), sym_produced, "produced", 0.1)
     else:
         add("dirty[n=3,stale chunk file]", dict(n=3, stale_chunks=True, sym_chunk=True), rate=0.01)
@@ -409,4 +452,38 @@ def real_verify(cfg, inp):
     return dict(outputs=None, violation=None)
 
 
-REAL = {"dirty": real_dirty, "produced": real_produced, "verify": real_verify}
+def real_dirty2(cfg, inp):
+    import tempfile
+    from pathlib import Path
+    import numpy as np
+    import mokapot
+    C = __import__("sys").modules["mokapot.confidence"]
+    with tempfile.TemporaryDirectory(prefix="verif_c09_") as d:
+        os.makedirs(os.path.join(d, "in"))
+        out = os.path.join(d, "out")
+        os.makedirs(out)
+        for path, t in inp["stale"].items():
+            _write_table(os.path.join(out, os.path.basename(path)), t)
+        before = set(os.listdir(out))
+        pss, dfs, scs = [], [], []
+        for cid, coll in enumerate(inp["collections"]):
+            p, df = c03.real_collection(os.path.join(d, "in"), cid, coll, "bool", ".pin")
+            pss.append(mokapot.read_pin(p, max_workers=1)[0])
+            dfs.append(df)
+            scs.append([float(x) for x in coll["scores"]])
+        old = C.peps_from_scores
+        C.peps_from_scores = lambda s, t, a="qvality": np.full(len(s), 0.5)
+        try:
+            mokapot.assign_confidence(pss, max_workers=1, scores=[np.array(x, dtype=float) for x in scs], descs=[True, True], dest_dir=Path(out), prefixes=inp["prefixes"], decoys=True)
+        except Exception as ex:
+            return dict(exception=repr(ex), violation="assign_confidence raised %r in a directory holding %s" % (ex, sorted(before)))
+        finally:
+            C.peps_from_scores = old
+        for cid, (df, sc) in enumerate(zip(dfs, scs)):
+            v = c03.check_outputs(df, sc, out, inp["prefixes"][cid], True, True, True, False)
+            if v:
+                return dict(violation="collection %s with leftovers %s: %s" % (inp["prefixes"][cid], sorted(before), v))
+    return dict(outputs=None, violation=None)
+
+
+REAL = {"dirty2": real_dirty2, "dirty": real_dirty, "produced": real_produced, "verify": real_verify}
